@@ -194,7 +194,7 @@ fn scan_and_match_delimiters<const MARKER: char>(state: &mut InlineState) {
                         start_map_pos = end - marker_len;
                     }
 
-                    new_token.srcmap = state.get_map(start_map_pos, end_map_pos);
+                    new_token.srcmap = Some(SourcePos::new(start_map_pos, end_map_pos));
 
                     // remove empty node as a small optimization so we can do less work later
                     if opener.remaining == 0 { state.node.children.pop(); }
